@@ -94,6 +94,12 @@ def ev(t, env, w=32, call=None, depth=0):
             if all(x == ZERO or y == ZERO for x, y in zip(a, b)):
                 return [x | y for x, y in zip(a, b)]
         raise Unknown()
+    if k == "un" and t[1] == "Not":
+        # bitwise complement of a constant mask (`!B_MASK`): every bit must be a known constant
+        a = ev(t[2], env, w, call, depth + 1)
+        if all(x in (ZERO, ONE) for x in a):
+            return [ZERO if x == ONE else ONE for x in a]
+        raise Unknown()
     if k == "cast":
         a = ev(t[1], env, w, call, depth + 1)
         tw = WIDTH.get(t[3])
